@@ -764,16 +764,18 @@ fn sweep(maxlen: usize, full: bool) {
     let strict = |which: u8, b: u8| -> bool {
         if which == 0 { rfc_class(0, b) } else { (0x20..=0x7e).contains(&b) || b >= 0x80 }
     };
-    let alpha: [u8; 8] = [0x00, 0x09, 0x1f, 0x20, 0x21, 0x7e, 0x7f, 0x80];
-    let alpha_small: [u8; 5] = [0x09, 0x20, 0x21, 0x7f, 0xff];
-    let n = if full { 8usize } else { 5 };
+    // boundary values of both classes, plus 0x1f / 0xa0 / 0xff so that carries and borrows
+    // between neighbouring bytes of the word are exercised in both directions
+    let alpha: [u8; 10] = [0x00, 0x09, 0x1f, 0x20, 0x21, 0x7e, 0x7f, 0x80, 0xa0, 0xff];
+    let alpha_small: [u8; 6] = [0x09, 0x1f, 0x20, 0x7f, 0xa0, 0xff];
+    let n = if full { 10usize } else { 6 };
     let total = (n as u64).pow(W as u32);
     for which in 0..2u8 {
         for idx in 0..total {
             let mut block = [0u8; W];
             let mut k = idx;
             for b in block.iter_mut() {
-                *b = if full { alpha[(k % 8) as usize] } else { alpha_small[(k % 5) as usize] };
+                *b = if full { alpha[(k % 10) as usize] } else { alpha_small[(k % 6) as usize] };
                 k /= n as u64;
             }
             let got = if which == 0 { httparse::_verif::uri_block(block) } else { httparse::_verif::header_value_block(block) };
